@@ -122,6 +122,15 @@ def make_inputs(rng, n):
                 tk = ['{'] + tk + ['}']
             out.append((level, A.layout(tk), len(tk), 'numeric-extreme', 'numeric-extreme'))
             continue
+        if level in ('specification', 'property') and 'within' in toks and rng.random() < 0.08:
+            # the time bound with another unit word or a degenerate amount (only `s` and `ms` are units)
+            j = len(toks) - 1 - toks[::-1].index('within')
+            tk = list(toks)
+            if j + 2 < len(tk):
+                tk[j + 1] = gen.pick(rng, ('0', '0.0', '1', '10', '1e-400', '.0'))
+                tk[j + 2] = gen.pick(rng, ('hz', 'Hz', 'us', 'min', 'sec', 'h', 'S', 's', 'ms'))
+                out.append((level, A.layout(tk), len(tk), 'unit-swap', 'unit-swap'))
+                continue
         if level in ('specification', 'property') and rng.random() < 0.06:
             # a repeated annotation key, with and without an id before it
             key = gen.pick(rng, ('title', 'description', 'id'))
